@@ -32,12 +32,13 @@ type Evidence struct {
 	FuncsHitMax      int
 	Probes           map[string]int
 	SwitchVectors    map[string]bool
+	GWriteSites      map[string]int
 }
 
 func newEvidence(c *Ctx) *Evidence {
 	return &Evidence{Level: "exploration", distinct: map[string]bool{}, Extra: map[string]interface{}{},
 		FaultsConfigured: map[string]int{}, FaultsFired: map[string]int{}, SiteVisits: map[string]*SiteStat{},
-		SitePerms: map[string]map[string]bool{}, TraceHashes: map[string]bool{}, Probes: map[string]int{}, SwitchVectors: map[string]bool{}}
+		SitePerms: map[string]map[string]bool{}, TraceHashes: map[string]bool{}, Probes: map[string]int{}, SwitchVectors: map[string]bool{}, GWriteSites: map[string]int{}}
 }
 
 func (e *Evidence) Distinct(sig string) { e.distinct[sig] = true }
@@ -78,6 +79,11 @@ func (e *Evidence) Absorb(c *Ctx, spec *Spec, r *Result) {
 			a.MaxKeys = st.MaxKeys
 		}
 	}
+	for id, n := range r.GWrites {
+		if st, ok := c.Build.Sites[id]; ok {
+			e.GWriteSites[st.File+"#"+st.Func+"("+st.Name+")"] += n
+		}
+	}
 	for i := range r.Ops {
 		if r.Ops[i].Trace != "" {
 			e.TraceHashes[r.Ops[i].Trace] = true
@@ -108,6 +114,7 @@ func (e *Evidence) write(c *Ctx) error {
 		"distinct_switch_vectors": len(e.SwitchVectors),
 		"functions_reached_max": e.FuncsHitMax,
 		"probes":              e.Probes,
+		"package_level_write_sites_hit": e.GWriteSites,
 		"build_key":           c.Build.Key[:16],
 		"uncontrolled_sources_reported_by_rewriter": c.Build.Uncontrolled,
 		"components": map[string]interface{}{
